@@ -26,7 +26,7 @@ def scenario(ctx, i):
     C, D = int(r.integers(1, 4 if ctx.tier == "quick" else 6)), int(r.integers(1, 4 if ctx.tier == "quick" else 6))
     w, m, v, _ = gen.gmm_params(r, C, D, scales=np.ones(D) * 10.0 ** r.choice([-1, 0, 1]))
     nm = int(r.integers(1, 5))
-    nt = int(r.integers(1, 5))
+    nt = int(r.integers(1, 5)) if r.random() < 0.93 else int(r.integers(129, 300))  # a long list of test items: one column each
     models = [m + r.normal(size=m.shape) * np.sqrt(v) * r.choice([0.0, 0.3, 1.0]) for _ in range(nm)]
     mk = ["machines", "array3", "array2"][int(r.integers(0, 3))]  # every choice below is drawn independently (no parity ties between them)
     if mk == "array2":
